@@ -342,3 +342,21 @@ impl ReadCursor {
         }
     }
 }
+
+impl Drop for ReadCursor {
+    fn drop(&mut self) {
+        // Only runs with the queue itself, when no handle is left: the list
+        // published last was never retired, and any stream still in it (there
+        // is none when every receiver went through drop/unsubscribe) is dead
+        unsafe {
+            let group = self.readers.load(Ordering::Relaxed);
+            if !group.is_null() {
+                for pos in (*group).readers.iter() {
+                    alloc::deallocate(*pos as *mut ReaderPos, 1);
+                }
+                ptr::read(group);
+                alloc::deallocate(group, 1);
+            }
+        }
+    }
+}
